@@ -18,11 +18,15 @@ NUMV = ["", "x", "-1", "0", "-0", "1", "2", "10", "1.5", "0.5", " 2 ", "-2.5", "
 TXTV = ["", "a", "b", "ab", "b1", "1", "10", "2", "aa", "ba"]
 
 
-def gen_doc(rng):
-    n = rng.randint(0, 7)
+def gen_doc(rng, long_=False):
+    """long_: 17-70 siblings with two or three different values per key - many ties, and more nodes than any small-list
+    special case of a sorting routine (introsort finishes runs of <= 16 with a stable insertion sort)"""
+    n = rng.randint(17, 70) if long_ else rng.randint(0, 7)
+    numv = rng.sample(NUMV, 3) if long_ else NUMV
+    txtv = rng.sample(TXTV[:5], 2) if long_ else TXTV[:5]
     kids = []
     for i in range(n):
-        attrs = [xdm.A("k1", rng.choice(NUMV)), xdm.A("k2", rng.choice(TXTV[:5])), xdm.A("k3", rng.choice(NUMV[:6]))]
+        attrs = [xdm.A("k1", rng.choice(numv)), xdm.A("k2", rng.choice(txtv)), xdm.A("k3", rng.choice(numv[:2] if long_ else NUMV[:6]))]
         rng.shuffle(attrs)
         attrs = attrs[:rng.randint(1, 3)]
         name = rng.choice(["e", "e", "e", "f"])
@@ -77,7 +81,7 @@ def run(res, tier, seed):
     r = vlib.tlc_mc(os.path.join(ROOT, "spec/mc/MC_Sort.tla"), cfg, name="c16mc", timeout=3000)
     res.add_mc(r, "MC_Sort (stable lexicographic total order, NaN first)")
     ndocs = 40 if quick else 400
-    docs = [gen_doc(rng) for _ in range(ndocs)]
+    docs = [gen_doc(rng, long_=(k % 8 == 7)) for k in range(ndocs)]
     flats = [xdm.flatten(t) for t in docs]
     ncases = 1200 if quick else 30000
     cases, metas = [], []
@@ -145,7 +149,7 @@ def run(res, tier, seed):
     res.notes["dropped_outside_number_domain"] = st["dropped"]
     res.cov["traces_validated_against_impl"] = len(events) - len(rejects) - st["dropped"]
     res.cov["distinct_nontrivial"] = len(nontriv)
-    res.cov["rule"] = ("seeded documents of 0-7 sibling elements carrying numeric (incl. '', NaN strings, -0, decimals) and text ([a-z0-9]*) key values; 1-3 xsl:sort keys "
+    res.cov["rule"] = ("seeded documents of 0-7 sibling elements (every 8th: 17-70 siblings with 2-3 values per key, so ties abound and no small-list path of the sorting routine applies) carrying numeric (incl. '', NaN strings, -0, decimals) and text ([a-z0-9]*) key values; 1-3 xsl:sort keys "
                        "(text/number, ascending/descending, literal or AVT attributes, keys using position()) in xsl:for-each and xsl:apply-templates over 6 select forms; "
                        "non-trivial = at least 3 nodes and the processing order differs from document order; distinct by (document, stylesheet)")
     for ev in events[:3]:
